@@ -429,7 +429,7 @@ def ref_greedy(F, label, n_remove):
     X = ref_normalize(F)
     k = M if label == "mnn" else 2
     n_remove = min(max(n_remove, 0), N - M) if n_remove <= N - M else N - M
-    if N * N * max(n_remove, 1) > 400000:
+    if (N * N * max(n_remove, 1) > 400000 and label != "pcd") or N * N * max(n_remove, 1) > 8000000:
         # the from-scratch reference is cubic: not evaluated on the largest fronts (the bit-exact models are)
         return np.full(N, np.nan), False, []
     extremes = set(int(i) for i in np.argmin(F, axis=0)) | set(int(i) for i in np.argmax(F, axis=0))
